@@ -550,15 +550,16 @@ def b_accessor(ctx):
     import pandas as pd
     import pylife.stress.equistress as eqs   # noqa
     rng = np.random.default_rng(ctx.seed + 7)
-    n = 6 if ctx.tier == 'quick' else 40
-    ctx.bound = f"{n} frames of 7 rows, shuffled, string / integer / multi index, tensor columns listed in 4 orders, with and without further columns"
-    ctx.rule = "frame with >= 2 distinct rows"
+    n = 14 if ctx.tier == 'quick' else 42
+    ctx.bound = f"{n} frames of 1..7 rows (every row count; added after seed C17-h told a single tensor from a column by len(...) == 3), shuffled, string / integer / multi index, tensor columns listed in 4 orders, with and without further columns"
+    ctx.rule = "every frame is one case"
     for k in range(n):
-        data = rng.normal(size=(7, 6)) * 100
-        idx = [pd.Index(list('gfedcba')), pd.Index(rng.permutation(7) * 3 + 5),
-               pd.MultiIndex.from_arrays([list('aabbccd'), rng.permutation(7)], names=['x', 'y'])][k % 3]
+        nr = (7, 3, 1, 2, 6, 4, 5)[k % 7]
+        data = rng.normal(size=(nr, 6)) * 100
+        idx = [pd.Index(list('gfedcba')[:nr]), pd.Index(rng.permutation(nr) * 3 + 5),
+               pd.MultiIndex.from_arrays([list('aabbccd')[:nr], rng.permutation(nr)], names=['x', 'y'])][k % 3]
         df = pd.DataFrame(data, columns=['S11', 'S22', 'S33', 'S12', 'S13', 'S23'], index=idx)
-        df = df.iloc[rng.permutation(7)]
+        df = df.iloc[rng.permutation(nr)]
         # the tensor frame is identified by its column NAMES: columns listed in another order (Voigt, ANSYS, row-major triangle) and further columns in between
         # (added after seed C17-e picked the components by position)
         orders = [['S11', 'S22', 'S33', 'S12', 'S13', 'S23'], ['S11', 'S22', 'S33', 'S23', 'S13', 'S12'], ['S11', 'S22', 'S33', 'S12', 'S23', 'S13'], ['S11', 'S12', 'S13', 'S22', 'S23', 'S33']]
@@ -572,7 +573,7 @@ def b_accessor(ctx):
             ser = getattr(df.equistress, name)()
             if not ser.index.equals(df.index):
                 ctx.fail('C17:accessor-index', f'{name}: index differs', None)
-            for i in range(7):
+            for i in range(nr):
                 row = df.iloc[i]
                 v = float(getattr(eqs, name)(row.S11, row.S22, row.S33, row.S12, row.S13, row.S23))
                 if abs(ser.iloc[i] - v) > 1e-9 * 100:
@@ -580,7 +581,7 @@ def b_accessor(ctx):
         pr = df.equistress.principals()
         if not pr.index.equals(df.index):
             ctx.fail('C17:accessor-index', 'principals: index differs', None)
-        for i in range(7):
+        for i in range(nr):
             row = df.iloc[i]
             w = np.asarray(eqs.principals(row.S11, row.S22, row.S33, row.S12, row.S13, row.S23), dtype=float).ravel()
             if not np.allclose(pr.iloc[i][['min_principal', 'med_principal', 'max_principal']].to_numpy(dtype=float), w, rtol=1e-9, atol=1e-7):
